@@ -12,6 +12,10 @@ from checks import c11
 
 
 def run(rep, tier, seed):
+    # the de-duplication queue's clause (a merged request must get the chunk it asked for, not another valid one) is a
+    # statement about interleavings: it is decided by the C12 machinery (Dedup.tla's ResultFresh, the gate scheduler)
+    from checks import c12
+    c12.run(rep, tier, seed)
     c11.drive(rep, "C03", tier, seed)      # chains over corrupt members: NoBadDelivery is checked at every Get
     work = os.path.join(vlib.BUILD, "work", "C03")
     binp = vlib.go_build("c03")
